@@ -309,6 +309,8 @@ def check_state(ctx, tag, loc, inst, fields):
                    "legacy branch of __setstate__ is not "
                    "Expression.__setstate__(self, state)")
             continue
+        if ps.term == "raise":
+            continue        # a refused state restores nothing and says so
         saw.add("fields")
         ok = True
         for w in writes:
